@@ -81,7 +81,7 @@ PROPS = {
         "assumptions": ["ObjectPath (des/src/net/path.rs, string slicing) is opaque: abstract value = sequence of segments; parent() = drop the last segment, is_root/len/== follow the segments: assumed contracts",
                         "ModuleRef shim: the Arc<ModuleContext> deref is collapsed to a struct with the `path` field",
                         "precondition: the path to add is not yet in the tree (the builder's duplicate check is outside this unit)"],
-        "not_covered": ["stage-major loops of SimLifecycle::at_sim_start/at_sim_end (mutex, clones, harness): 'all stage-i calls precede stage-(i+1)', 'exactly once per stage', at_sim_end exactly once",
+        "not_covered": ["BOUNDED only (replay/tree_driver, never counted as proved): stage-major loops of SimLifecycle::at_sim_start/at_sim_end — 'all stage-i calls precede stage-(i+1)', 'each (module, stage) exactly once', depth-first pre-order with siblings in creation order as observed through the public API, at_sim_end exactly once per module",
                         "builder panics for duplicate path / missing parent (only 'add returns normally => the parent was present' is proved)", "ObjectPath implementation, parent/child lookups"],
     },
 }
